@@ -55,7 +55,7 @@ impl Check for IrsCheck {
         if tier == Tier::Quick {
             2000
         } else {
-            100000
+            60000
         }
     }
     fn components(&self) -> serde_json::Value { serde_json::json!({"real": ["rwa::identity_registry_storage::* behind a wrapper"], "stub": []}) }
